@@ -85,20 +85,21 @@ def ph_xml(i: int, p: dict) -> str:
         attrs += ' sz="%s"' % p["sz"]
     geo = (100000 * i, 0 if i % 2 == 0 else 200000 * i, 3000000 + 1000 * i, 1000000 + 7 * i)
     car = p.get("car", "sp")
+    nm = {"same": "Shared Placeholder Name", "amp": "A &amp; &quot;B&quot; &lt;C&gt; %d" % (i + 1)}.get(p.get("nm", "u"), "Gen Placeholder %d" % (i + 1))
     if car == "pic":         # a picture placeholder that was filled on the layout
-        return ('<p:pic xmlns:p="%s" xmlns:a="%s"><p:nvPicPr><p:cNvPr id="%d" name="Gen Placeholder %d"/><p:cNvPicPr><a:picLocks noGrp="1"/></p:cNvPicPr>'
+        return ('<p:pic xmlns:p="%s" xmlns:a="%s"><p:nvPicPr><p:cNvPr id="%d" name="%s"/><p:cNvPicPr><a:picLocks noGrp="1"/></p:cNvPicPr>'
                 '<p:nvPr><p:ph%s/></p:nvPr></p:nvPicPr><p:blipFill><a:blip/><a:stretch><a:fillRect/></a:stretch></p:blipFill><p:spPr>%s</p:spPr></p:pic>'
-                % (P, A, i + 2, i + 1, attrs, ('<a:xfrm><a:off x="%d" y="%d"/><a:ext cx="%d" cy="%d"/></a:xfrm>' % geo) if p["own"] else ""))
+                % (P, A, i + 2, nm, attrs, ('<a:xfrm><a:off x="%d" y="%d"/><a:ext cx="%d" cy="%d"/></a:xfrm>' % geo) if p["own"] else ""))
     if car == "gf":          # a table / chart / diagram placeholder that was filled on the layout
-        return ('<p:graphicFrame xmlns:p="%s" xmlns:a="%s"><p:nvGraphicFramePr><p:cNvPr id="%d" name="Gen Placeholder %d"/><p:cNvGraphicFramePr>'
+        return ('<p:graphicFrame xmlns:p="%s" xmlns:a="%s"><p:nvGraphicFramePr><p:cNvPr id="%d" name="%s"/><p:cNvGraphicFramePr>'
                 '<a:graphicFrameLocks noGrp="1"/></p:cNvGraphicFramePr><p:nvPr><p:ph%s/></p:nvPr></p:nvGraphicFramePr>'
                 '<p:xfrm><a:off x="%d" y="%d"/><a:ext cx="%d" cy="%d"/></p:xfrm><a:graphic><a:graphicData '
                 'uri="http://schemas.openxmlformats.org/drawingml/2006/table"><a:tbl><a:tblPr/><a:tblGrid/></a:tbl></a:graphicData></a:graphic>'
-                '</p:graphicFrame>' % ((P, A, i + 2, i + 1, attrs) + geo))
+                '</p:graphicFrame>' % ((P, A, i + 2, nm, attrs) + geo))
     xfrm = ('<a:xfrm><a:off x="%d" y="%d"/><a:ext cx="%d" cy="%d"/></a:xfrm>' % geo) if p["own"] else ""   # first one sits at (0, 0)
-    return ('<p:sp xmlns:p="%s" xmlns:a="%s"><p:nvSpPr><p:cNvPr id="%d" name="Gen Placeholder %d"/><p:cNvSpPr><a:spLocks noGrp="1"/></p:cNvSpPr>'
+    return ('<p:sp xmlns:p="%s" xmlns:a="%s"><p:nvSpPr><p:cNvPr id="%d" name="%s"/><p:cNvSpPr><a:spLocks noGrp="1"/></p:cNvSpPr>'
             '<p:nvPr><p:ph%s/></p:nvPr></p:nvSpPr><p:spPr>%s</p:spPr><p:txBody><a:bodyPr/><a:lstStyle/><a:p><a:endParaRPr lang="en-US"/></a:p></p:txBody></p:sp>'
-            % (P, A, i + 2, i + 1, attrs, xfrm))
+            % (P, A, i + 2, nm, attrs, xfrm))
 
 
 GEN_LAYOUT = 2      # the layout part rewritten for generated populations (slideLayout2.xml)
